@@ -104,6 +104,13 @@ def run(tier):
     # plain and committed public inputs side by side (the committed column carries its own count)
     for np_, nc in ([(2, 1), (0, 2), (3, 3)] if tier == "quick" else [(a, b) for a in (0, 1, 3, 8) for b in (0, 1, 2, 5)]):
         scen.append({"committed": True, "np": np_, "nc": nc, "seed": rng.randrange(1, 1000)})
+    # circuits of the generated family whose gates read a plain instance column at a non-zero rotation (real prover / verifier)
+    for r in ([1, -1, 2] if tier == "quick" else [1, -1, 2, -2, 3]):
+        for il in ([3] if tier == "quick" else [2, 3, 5]):
+            shape = {"k": 5, "adv": [3], "chal": [0], "unblinded": 0, "inst": 1, "committed": 0, "inst_lens": [il], "deg": 3,
+                     "lookups": 0, "lookup_any": 0, "trash": 0, "perm": 1, "seed": rng.randrange(1 << 30), "ops": 4, "inst_rot": r,
+                     "inst_copy": False}
+            scen.append({"instrot": True, "shape": shape, "seed": rng.randrange(1, 1000)})
     rng.shuffle(scen)
     chunks = [scen[i::vlib.NCPU] for i in range(vlib.NCPU)]
     jobs = []
@@ -116,13 +123,24 @@ def run(tier):
     row_sets = [vlib.read_ndjson(j[2]) for j in jobs]
     pubs = [r for rows in row_sets for r in rows if r["ev"] == "Pub"]
     good, rejected, st = vlib.validate_many(row_sets, "PubIn_Trace.tla", "PubIn_Trace.cfg", "C08", "pub",
-                                            max_rejects=8, start_ev=("Pub", "Acc", "PubC", "EncDom"))
+                                            max_rejects=8, start_ev=("Pub", "Acc", "PubC", "EncDom", "PubRot"))
     for run_rows, line, e in [x for x in rejected if x[2]["ev"] == "PubC"]:
         rep.violation({"clause": "committed_instances", "types": ["native"], "vk_nb_is_plain_count": e["vk_nb"] == e["np"]},
                       f"relation with {e['np']} plain and {e['nc']} committed public inputs: key records {e['vk_nb']}, verify={e['verify']} shorter={e['verify_shorter']} "
                       f"longer={e['verify_longer']} padded={e['verify_padded']} other_commitment={e['verify_other_commitment']} none={e['verify_no_commitment']}",
                       {"scenario": {"committed": True, "np": e["np"], "nc": e["nc"]}})
     rejected = [x for x in rejected if x[2]["ev"] != "PubC"]
+    rots = [r for rows in row_sets for r in rows if r["ev"] == "PubRot"]
+    if not rots:
+        raise vlib.ToolError("vacuity: no circuit reading the instance column at a rotation was run")
+    for run_rows, line, e in [x for x in rejected if x[2]["ev"] == "PubRot"]:
+        if "harness_error" in e:
+            raise vlib.ToolError(f"harness could not run an instance-rotation scenario: {e}")
+        rep.violation({"clause": "instance_rotation", "types": ["native"], "honest_accepted": e["verify"] == "ok"},
+                      f"circuit reading its instance column at rotation {e['rot']} (lengths {e['lens']}): mock={e['mock']} verify={e['verify']} "
+                      f"edits={[x['res'] for x in e['edits']]} shorter={e['shorter']} longer={e['longer']} rotated={e['rotated']}",
+                      {"scenario": next(s for s in scen if s.get("instrot") and s["shape"]["inst_rot"] == e["rot"] and s["shape"]["inst_lens"] == e["lens"][:1])})
+    rejected = [x for x in rejected if x[2]["ev"] != "PubRot"]
     doms = [r for rows in row_sets for r in rows if r["ev"] == "EncDom"]
     fit = [vlib.nat_to_int(e["val"]) < 1 << (96 * ((e["nbits"] + 95) // 96)) for e in doms]
     if not any(fit) or all(fit):
@@ -175,7 +193,7 @@ def run(tier):
         "relations": len(pubs), "accumulators": len(accs), "accumulators_with_unsorted_names": sum(1 for a in accs if not a["names_sorted"]), "items_exposed": sum(len(e["items"]) for e in pubs),
         "edits": nedits, "edits_accepted": sum(1 for e in pubs for x in e["edits"] if x["status"] == "sat"),
         "relations_with_keys": sum(1 for e in pubs if e.get("keys")),
-        "encoder_domain_runs": len(doms), "encoder_domain_refusals": sum(1 for e in doms if e["refused"]),
+        "instance_rotation_circuits": len(rots), "encoder_domain_runs": len(doms), "encoder_domain_refusals": sum(1 for e in doms if e["refused"]),
         "types": sorted(set(i["ty"] for e in pubs for i in e["items"])),
         "evaluations": nedits + len(pubs),
         "distinct_nontrivial": len(set((i["ty"], i.get("path")) for e in pubs for i in e["items"])),
@@ -200,6 +218,17 @@ def replay(path):
         tp = os.path.join(wd, "replay_trace.ndjson")
         vlib.run_vh(["c08", sp, tp])
         good, rejected, _ = vlib.validate_runs(vlib.read_ndjson(tp), "PubIn_Trace.tla", "PubIn_Trace.cfg", "C08", "replay", start_ev=("Acc", "PubC"))
+        if rejected:
+            log(f"VIOLATION property=C08 replay={path}")
+            return 1
+        log("replay: accepted (violation not reproduced)")
+        return 0
+    if d["replay"].get("scenario", {}).get("instrot"):
+        sp = os.path.join(wd, "replay_scen.ndjson")
+        vlib.write_ndjson(sp, [d["replay"]["scenario"]])
+        tp = os.path.join(wd, "replay_trace.ndjson")
+        vlib.run_vh(["c08", sp, tp])
+        good, rejected, _ = vlib.validate_runs(vlib.read_ndjson(tp), "PubIn_Trace.tla", "PubIn_Trace.cfg", "C08", "replay", start_ev="PubRot")
         if rejected:
             log(f"VIOLATION property=C08 replay={path}")
             return 1
